@@ -70,7 +70,7 @@ def _unrepaired_model_agrees(lines, answers):
         f = ln.split('\t')
         if len(f) >= 3 and f[1] == 'set_max_nodes':
             (capped.discard if f[2] == 'max' else capped.add)(f[0])
-        if len(f) >= 2 and f[0] in capped and f[1] in ('foa', 'ite', 'var', 'apply', 'quantify', 'cofactor', 'let_b', 'compose', 'let_r', 'rename', 'let_n', 'cube'):
+        if len(f) >= 2 and f[0] in capped and f[1] in ('foa', 'ite', 'var', 'apply', 'quantify', 'cofactor', 'let_b', 'compose', 'let_r', 'rename', 'let_n', 'cube', 'add_expr'):
             f[1] += '_old'
         out_lines.append('\t'.join(f))
     try:
@@ -543,8 +543,6 @@ def op_scenario(ctx, k):
                 h.hold(s.val(a))
         for _ in range(rng.randint(3, 9)):
             c, _t = _op_call(h, sp, TT(b, h.names), rng.choice(['apply2', 'apply3', 'apply2', None]))
-            if c[0] == 'add_expr':
-                pre_unmodelled = True
             r = s.val(h.call(c))
             if r is not None and rng.random() < 0.5:
                 h.hold(r)
@@ -578,8 +576,6 @@ def op_scenario(ctx, k):
             held_tt = {x: TT(cb, h.names).of(x) for x, n_ in led.items() if n_ > 0}
             last_len, old_succ, before = cb._last_len, dict(cb._succ), impl.dump_state(cb)
             del FULL_SITES[:]
-            if c[0] == 'add_expr':
-                unmodelled = True
             a = s.op(0, *c)
             ctx.evaluations += 1
             if a != 'err RuntimeError':
